@@ -369,8 +369,9 @@ Definition term_reads_ok (f : fmt) : bool :=
       | _, _ => false
       end
   | TMaybe =>
+      (* the end marker reads as a possible terminal of exactly its own size, and end of input is detected *)
       match term_bytes f, read_instr f (term_bytes f) with
-      | _ :: _, Ok (RMaybe _, []) => true
+      | _ :: _, Ok (RMaybe t, []) => (instr_size f t =? Z.of_nat (length (term_bytes f))) && f_eof_first f
       | _, _ => false
       end
   end.
